@@ -235,8 +235,10 @@ def _p2_prime(cx, tab):
     return False, '?'
 
 
-def p3(cx):
-    """slot discipline of every shared handle to an observer"""
+def p3(cx, items=False, prop=None, rule='P3'):
+    """slot discipline of every shared handle to an observer. For C01 only the terminal clause matters (a terminal sent on an observer
+    that stays in its slot can be followed by another one); the item clause (items=True: never deliver an item on an observer taken
+    out of the slot) is a no-loss condition and is reported by C04.M9 / C05.F7 / C06"""
     res = []
     n = 0
     for im in cx.observer_impls():
@@ -255,14 +257,14 @@ def p3(cx):
                 m = down_method(x)
                 if m in ('error', 'complete') and '!take' not in access_path(x['args'][0])[1]:
                     bad = (x, 'a terminal is sent on an observer that stays in the shared slot')
-                if m == 'next' and '!take' in access_path(x['args'][0])[1] and meth == 'next':
-                    bad = (x, 'an item is delivered on an observer taken out of the slot (the slot is lost for later items)')
+                if items and m == 'next' and '!take' in access_path(x['args'][0])[1] and meth == 'next':
+                    bad = (x, 'an item is delivered on an observer taken out of the slot: while it is out, the slot looks terminated and notifications of other inputs or threads are dropped')
             if bad:
-                res.append(Finding(ID, 'P3', label, False, bad[1], g.loc(bad[0]), [node_desc(g, bad[0])]))
+                res.append(Finding(prop or ID, rule, label, False, bad[1], g.loc(bad[0]), [node_desc(g, bad[0])]))
             else:
-                res.append(Finding(ID, 'P3', label, True, 'terminals through take(), items through the borrowed slot', fn['span']))
+                res.append(Finding(prop or ID, rule, label, True, 'terminals through take()' + (', items through the borrowed slot' if items else ''), fn['span']))
     if not cx.control and n < 17:
-        res.append(Finding(ID, 'P3', 'floor', False, 'only %d shared observer impls found, expected >= 17' % n))
+        res.append(Finding(prop or ID, rule, 'floor', False, 'only %d shared observer impls found, expected >= 17' % n))
     return res
 
 
